@@ -170,29 +170,40 @@ func rC11RunHelpNode(w *World, r *Report) {
 		return ok && b2 == ssa.Value(fn.Params[1])
 	}
 	n := 0
+	sawParent, sawTopic := false, false
 	for _, c := range callsTo(fn, "getoptions.helpOutput") {
-		n++
-		a := c.Common().Args[0]
-		good := isParent(a)
-		if !good {
-			// element of Parent.ChildCommands
-			if ex, ok := a.(*ssa.Extract); ok {
-				switch t := ex.Tuple.(type) {
-				case *ssa.Next:
-					if rg, ok := t.Iter.(*ssa.Range); ok {
-						if b, ok := loadOfFieldNamed(rg.X, "ChildCommands"); ok && isParent(b) {
-							good = true
+		// one print per case, or a single print of a variable that merges the cases (phi): every value that can be
+		// printed must be the parent level or one of its commands (nil = "no such topic", answered with an error)
+		for _, a := range phiLeaves(c.Common().Args[0], map[ssa.Value]bool{}) {
+			if isNilConst(a) {
+				continue
+			}
+			n++
+			good := isParent(a)
+			if good {
+				sawParent = true
+			}
+			if !good {
+				// element of Parent.ChildCommands
+				if ex, ok := a.(*ssa.Extract); ok {
+					switch t := ex.Tuple.(type) {
+					case *ssa.Next:
+						if rg, ok := t.Iter.(*ssa.Range); ok {
+							if b, ok := loadOfFieldNamed(rg.X, "ChildCommands"); ok && isParent(b) {
+								good, sawTopic = true, true
+							}
 						}
-					}
-				case *ssa.Lookup:
-					if b, ok := loadOfFieldNamed(t.X, "ChildCommands"); ok && isParent(b) {
-						good = true
+					case *ssa.Lookup:
+						if b, ok := loadOfFieldNamed(t.X, "ChildCommands"); ok && isParent(b) {
+							good, sawTopic = true, true
+						}
 					}
 				}
 			}
+			ru.Check(good, "runHelp/node", w.IPos(c), "help of the help node's own parent level", "the help command answers for a different level than the one it was invoked at")
 		}
-		ru.Check(good, "runHelp/node", w.IPos(c), "help of the help node's own parent level", "the help command answers for a different level than the one it was invoked at")
 	}
+	_, _ = sawParent, sawTopic
 	if n < 2 {
 		ru.Bad("runHelp/node", w.Pos(fn.Pos()), "runHelp does not print both the level help and the topic help")
 	}
